@@ -95,6 +95,7 @@ def run_jobs(jobs: list[Job], known: dict[str, list[str]], workdir: str) -> None
                         "mode": "check",
                         "timeout": j.timeout,
                         "known": known,
+                        "prop": j.prop,
                         "engine": j.h.engine,
                     },
                     f,
@@ -186,7 +187,7 @@ def check(prop: str, tier: str) -> int:
         return 2
     jobs: list[Job] = []
     for h in hs:
-        for sh in h.quick if tier == "quick" else h.thorough:
+        for sh in h.shards(prop, tier):
             jobs.append(Job(h, dict(sh), tier, prop))
     # longest first; the seed only rotates ties
     jobs.sort(key=lambda j: -j.timeout)
